@@ -32,6 +32,7 @@ func runC20(c *Ctx) {
 	c.Doc("R20.6", "every edge maker call receives a node of the list scanned and that node's position in the list as passed in (loop index, plus the number of elements cut off the front when a suffix is scanned: the companion phi of the list phi holds exactly the low bound of each cut); the after-cut is source[j+1:] for the matched position j; in the before-scan nothing is collected before the comparison or after a match, and a match leaves the loop")
 	c.Doc("R20.5", "the source of every connections.*Con call is not an unsorted map walk")
 	checkArrayIndexBounds(c)
+	checkConnectionInputWiring(c, "R20.10")
 	p := w.Pkg("api/graphql/connections")
 	if p == nil {
 		c.Undecided("R20.1", "anchor:api/graphql/connections", "api/graphql/connections", "package not found")
